@@ -91,6 +91,57 @@ def case_roundtrips(R, D, populate):
     return Case(label, fn)
 
 
+def case_roundtrips_approx(Dy, Dx, Dk):
+    """approximate conditionals through flatten/unflatten and jit (their conditional mean and the
+    moment-matched marginal must be unchanged)"""
+    label = f"roundtrips-approx/Dy{Dy}Dx{Dx}Dk{Dk}"
+    def fn(m):
+        rng = gen.rng_path(m.seed, label)
+        fails = []
+        params = dict(Dy=Dy, Dx=Dx, Dk=Dk)
+        S = gen.pd_batch(rng, 1, Dy)
+        M = rng.standard_normal((1, Dy, Dx + Dk)); b = rng.standard_normal((1, Dy))
+        regs = []
+        if hasattr(m, "feat_rbf"):
+            regs.append(("LRBF", m.feat_rbf(M, b, rng.standard_normal((Dk, Dx)), rng.uniform(0.7, 1.5, (Dk, Dx)), Sigma=S)))
+            regs.append(("LSEM", m.feat_lsem(M, b, rng.standard_normal((Dk, Dx + 1)), Sigma=S)))
+        if hasattr(m, "hetero"):
+            A = rng.standard_normal((1, Dy, Dy)) + 2 * np.eye(Dy)[None]
+            for cls in ("exp", "coshm1"):
+                try:
+                    regs.append(("Hetero-" + cls, m.hetero(cls, rng.standard_normal((1, Dy, Dx)), b, A, 0.5 * rng.standard_normal((min(Dk, Dy), Dx + 1)))))
+                except Exception:
+                    pass
+        p = mk_pdf(m, rng, 1, Dx)
+        x = jnp.asarray(gen.points(rng, 3, Dx))
+        for name, reg in regs:
+            o = m.regs.get(reg)
+            if o is None:
+                continue
+            try:
+                leaves, td = jax.tree_util.tree_flatten(o)
+                o2 = jax.tree_util.tree_unflatten(td, leaves)
+                o3 = jax.jit(lambda z: z)(o)
+            except Exception as e:
+                fails.append(failure(PROPERTY, f"pytree:{name}", f"flatten/unflatten/jit raised: {type(e).__name__}: {str(e)[:160]}", params=params)); continue
+            for tag, oo in (("unflatten", o2), ("jit", o3)):
+                try:
+                    fail_if(fails, PROPERTY, f"{tag}:{name}", "conditional mean changed after the transformation boundary",
+                            np.asarray(oo.get_conditional_mu(x)), np.asarray(o.get_conditional_mu(x)), params=params)
+                    a = oo.affine_marginal_transformation(m.regs[p.reg]); bb = o.affine_marginal_transformation(m.regs[p.reg])
+                    fail_if(fails, PROPERTY, f"{tag}:{name}:marginal", "moment-matched marginal changed after the transformation boundary",
+                            np.asarray(a.Sigma), np.asarray(bb.Sigma), params=params)
+                except Exception as e:
+                    fails.append(failure(PROPERTY, f"{tag}:{name}", f"raised after the round trip: {type(e).__name__}: {str(e)[:160]}", params=params))
+            try:
+                jm = jax.jit(lambda oo, xx: oo.get_conditional_mu(xx))(o, x)
+                fail_if(fails, PROPERTY, f"jit-arg:{name}", "jit result differs from eager", np.asarray(jm), np.asarray(o.get_conditional_mu(x)), params=params)
+            except Exception as e:
+                fails.append(failure(PROPERTY, f"jit-arg:{name}", f"raised under jit: {type(e).__name__}: {str(e)[:160]}", params=params))
+        return fails
+    return Case(label, fn)
+
+
 def case_pipelines(R, D, sub):
     """pipelines run eagerly on the Machine (model tie) and on the implementation eager vs jit / vmap"""
     label = f"pipelines/R{R}/D{D}/{sub}"
@@ -243,6 +294,9 @@ def cases(seed, tier):
             out.append(case_roundtrips(R, D, pop))
     for i, (R, D) in enumerate([(2, 3), (1, 2)] + ([(3, 4), (2, 1)] if tier != "quick" else [])):
         out.append(case_pipelines(R, D, i))
+    out.append(case_roundtrips_approx(2, 2, 2))
+    if tier != "quick":
+        out.append(case_roundtrips_approx(1, 3, 3))
     out.append(case_scan(4, 2, 1))
     if tier != "quick":
         out.append(case_scan(8, 3, 2))
